@@ -32,7 +32,8 @@
 EXTENDS Integers, Sequences, FiniteSets, TLC
 
 CONSTANTS NI, Names, Clients, RecheckGen, SortLocks, PlusLocksKids, Scenario, MaxTries,
-          OneOp        \* the clients that issue one request; the others issue one or two
+          OneOp,       \* the clients that issue one request; the others issue one or two
+          LowestFree   \* TRUE: the allocator hands out the lowest free number (what the real one does after a restart); FALSE: any
 
 Inums == 1..NI
 Root == 1
@@ -104,7 +105,7 @@ Atomic(f, op, alloc) ==
 (*------------------------------ initial states ------------------------------*)
 Kinds0 ==
   CASE Scenario = "half" -> [i \in Inums |-> IF i = 1 THEN "dir" ELSE IF i = 2 THEN "dir" ELSE "free"]
-    [] Scenario = "tree" -> [i \in Inums |-> IF i = 1 THEN "dir" ELSE IF i = 3 THEN "dir" ELSE IF i = 2 THEN "file" ELSE "free"]
+    [] Scenario \in {"tree", "treegen"} -> [i \in Inums |-> IF i = 1 THEN "dir" ELSE IF i = 3 THEN "dir" ELSE IF i = 2 THEN "file" ELSE "free"]
     [] OTHER -> [i \in Inums |-> IF i = 1 THEN "dir" ELSE IF i = 2 THEN "file" ELSE "free"]
 A == CHOOSE n \in Names : TRUE
 B == CHOOSE n \in Names : n # A
@@ -117,7 +118,7 @@ Fs0 ==
   THEN [kind |-> Kinds0, gen |-> [i \in Inums |-> 1],
         ents |-> [i \in Inums |-> IF i = 1 THEN [NoEnts EXCEPT ![A] = 2] ELSE NoEnts],
         shr |-> [i \in Inums |-> i = 3], big |-> [i \in Inums |-> FALSE], ver |-> [i \in Inums |-> 0]]
-  ELSE IF Scenario = "tree"
+  ELSE IF Scenario \in {"tree", "treegen"}
   THEN [kind |-> Kinds0, gen |-> [i \in Inums |-> 1],
         ents |-> [i \in Inums |-> IF i = 1 THEN [NoEnts EXCEPT ![A] = 3] ELSE IF i = 3 THEN [NoEnts EXCEPT ![A] = 2] ELSE NoEnts],
         shr |-> [i \in Inums |-> FALSE], big |-> [i \in Inums |-> FALSE], ver |-> [i \in Inums |-> 0]]
@@ -131,6 +132,12 @@ Menu ==
   IF Scenario = "half"
   THEN {Op("CREATE", H(2), A), Op("CREATE", H(2), B), Op("REMOVE", H(1), A), Op("CREATE", H(1), A), Op("CREATE", H(1), B),
         Op("LOOKUP", H(2), A), Op("GETATTR", H(2), A), [Op("RENAME", H(1), A) EXCEPT !.h2 = H(1), !.n2 = B]}
+  ELSE IF Scenario = "treegen"     \* for behaviours replayed on the real server: no operation that starts the shrinker
+  THEN {Op("LOOKUP", H(3), A), Op("REMOVE", H(3), A), Op("CREATE", H(3), A), Op("CREATE", H(3), B), Op("CREATE", H(1), B),
+        Op("GETATTR", H(2), A), [Op("WRITE", H(2), A) EXCEPT !.v = 1], Op("TRUNC", H(2), A),
+        [Op("RENAME", H(3), A) EXCEPT !.h2 = H(1), !.n2 = B], [Op("RENAME", H(3), A) EXCEPT !.h2 = H(3), !.n2 = B],
+        [Op("RENAME", H(1), B) EXCEPT !.h2 = H(3), !.n2 = A], [Op("RENAME", H(3), B) EXCEPT !.h2 = H(3), !.n2 = A],
+        Op("READDIRPLUS", H(1), A), Op("READDIRPLUS", H(3), A), Op("LOOKUP", H(1), A), Op("LOOKUP", H(1), B)}
   ELSE IF Scenario = "tree"
   THEN {Op("LOOKUP", H(3), A), Op("REMOVE", H(3), A), Op("REMOVE", H(1), A), Op("CREATE", H(3), A), Op("CREATE", H(3), B), Op("CREATE", H(1), B),
         Op("GETATTR", H(2), A), [Op("WRITE", H(2), A) EXCEPT !.big = TRUE], Op("TRUNC", H(2), A),
@@ -228,10 +235,13 @@ LockSeq(c, pcSelf, pcDone, pcRetry) ==
           IF lock[i] = c THEN Set(c, [cs[c] EXCEPT !.q = Tail(@)]) /\ UNCHANGED <<fs, lock, bad, taken, shq>>   \* duplicate
           ELSE /\ lock[i] = 0
                /\ IF fs.kind[i] = "free"
-                  THEN /\ lock' = RelAll(c) /\ UNCHANGED <<fs, bad, taken, shq>>     \* GetInodeInum releases it; lockInodes aborts
-                       /\ Set(c, [cs[c] EXCEPT !.pc = pcRetry, !.q = <<>>])
+                  THEN /\ lock' = [lock EXCEPT ![i] = c] /\ UNCHANGED <<fs, bad, taken, shq>>   \* GetInodeInum takes the lock, sees a free inode ...
+                       /\ Set(c, [cs[c] EXCEPT !.pc = "lf", !.st = pcRetry])
                   ELSE /\ lock' = [lock EXCEPT ![i] = c] /\ UNCHANGED <<fs, bad, taken, shq>>
                        /\ Set(c, [cs[c] EXCEPT !.q = Tail(@)])
+LF(c) ==    \* ... releases it, and lockInodes aborts the transaction
+  /\ cs[c].pc = "lf"
+  /\ lock' = RelAll(c) /\ Set(c, [cs[c] EXCEPT !.pc = cs[c].st, !.st = "", !.q = <<>>]) /\ UNCHANGED <<fs, bad, taken, shq>>
 D4(c) == LockSeq(c, "d4", "d5", "d1")
 D5(c) ==   \* re-validate after the window
   /\ cs[c].pc = "d5"
@@ -258,7 +268,8 @@ C2(c) ==
      ELSE IF fs.kind[d] # "dir" THEN Finish(c, "ERR", <<>>, fs, 0) /\ UNCHANGED taken
      ELSE IF fs.ents[d][o.n] # 0 THEN Finish(c, "EXIST", <<>>, fs, 0) /\ UNCHANGED taken
      ELSE IF free = {} THEN Finish(c, "NOSPC", <<>>, fs, 0) /\ UNCHANGED taken
-     ELSE \E n \in free : /\ taken' = taken \cup {n}
+     ELSE \E n \in (IF LowestFree THEN {CHOOSE m \in free : \A k \in free : m <= k} ELSE free) :
+                          /\ taken' = taken \cup {n}
                           /\ Set(c, [cs[c] EXCEPT !.pc = "c3", !.x = n]) /\ UNCHANGED <<fs, lock, bad>>
   /\ UNCHANGED shq
 C3(c) == cs[c].pc = "c3" /\ Take(c, cs[c].x, "c4")       \* the new number may be smaller than the directory's
@@ -339,7 +350,7 @@ P4(c) ==    \* Apply releases the child again before it goes on: directory + one
   /\ lock' = [lock EXCEPT ![Head(cs[c].q)] = 0] /\ Set(c, [cs[c] EXCEPT !.pc = "p3", !.q = Tail(@)])
   /\ UNCHANGED <<fs, bad, taken, shq>>
 
-Step(c) == Start(c) \/ H1(c) \/ H2(c) \/ H3(c) \/ H4(c) \/ D1(c) \/ D2(c) \/ D3(c) \/ D4(c) \/ D5(c) \/ D6(c)
+Step(c) == Start(c) \/ LF(c) \/ H1(c) \/ H2(c) \/ H3(c) \/ H4(c) \/ D1(c) \/ D2(c) \/ D3(c) \/ D4(c) \/ D5(c) \/ D6(c)
            \/ C1(c) \/ C2(c) \/ C3(c) \/ C4(c) \/ C5(c) \/ C6(c) \/ R1(c) \/ R1a(c) \/ RStale(c) \/ R2(c) \/ R3(c) \/ R4(c)
            \/ P1(c) \/ P2(c) \/ P3(c) \/ P4(c)
 
